@@ -156,9 +156,10 @@ def gen_case(rng, cfg, idx):
                 b.call(rng.choice(["ravel", "flatten_view"]) if False else "ravel", [B.R(vt)], sp=rng.choice(["mg", "meth"]), prefix="w")
                 b.call("reshape", [B.R(vt), ["t", [-1]]], sp="mg", prefix="w")
             b.call("ravel", [B.R(base)], sp="mg", prefix="w")
-        if direct and np.size(b.val(base)) > 1:
+        if direct and np.size(b.val(base)) > 1 and idx % 16 == 5:
             # backward() called directly on the (non-scalar) base of the views, in whatever memory layout it has: the seed gradient is
-            # its gradient, and every view's gradient is the corresponding view of it
+            # its gradient, and every view's gradient is the corresponding view of it (every other such history instead reads the
+            # base and its layout-sensitive views out through consumers, so that the first contribution comes from an operation)
             L = base
         else:
             L = add_readout(b, rng, max_terms=5)
